@@ -33,7 +33,16 @@ def time_limit(case):
 
 
 def nested(rng, depth):
-    k = rng.randrange(8)
+    k = rng.randrange(12)
+    if k == 8:      # var() fallbacks nested in fallbacks (defined, undefined, mixed)
+        return '@variables{v0:1px} a{x:' + ''.join('var(v%d, ' % (i % 2) for i in range(depth)) + '1px' + ')' * depth + '}'
+    if k == 9:
+        return 'a{x:' + 'var(v, ' * depth + 'red' + ')' * depth + '; y: ' + 'var(w,' * min(depth, 30) + ')' * min(depth, 30) + '}'
+    if k == 10:     # functions of every kind nested in one another
+        fs = ['rgb(', 'url(', 'var(a,', 'calc(', 'f(', 'attr(', 'hsl(1,', 'counter(']
+        return 'a{x:' + ''.join(fs[i % len(fs)] if fs[i % len(fs)] != 'url(' else 'g(' for i in range(depth)) + '1' + ')' * depth + '}'
+    if k == 11:
+        return 'a{x:' + 'f(1, ' * depth + '2' + ')' * depth + ' ' + 'g(' * depth + ')' * depth + '}'
     if k == 0:
         return 'a{' * depth + 'b:c' + '}' * depth
     if k == 1:
